@@ -209,7 +209,7 @@ PROPS = {
                 mc={"quick": ["total_hist"], "thorough": ["total_hist", "boundary_hist", "sim_hist"]},
                 steps=[{"cmd": "c05", "judge": "J_C05", "profile": "checked", "watchdog": {"quick": 600, "thorough": 5400}},
                        {"cmd": "c05", "judge": "J_Conf", "profile": "checked", "reuse": True, "drift": True}]),
-    "C07": dict(T("same payload families as C01; both encoders compared with Frame.Canonical; ArrayBuf capacities around the frame length; 5 extra next() calls after the iterator ended"),
+    "C07": dict(T("same payload families as C01; both encoders compared with Frame.Canonical (the buffer encoder also fed through iterators with an inexact size_hint); ArrayBuf capacities around the frame length; 300 / 70000 extra next() calls after the iterator ended"),
                 mc={"quick": ["encoders"], "thorough": ["encoders"]},
                 proofs=["pad_counter", "pad_counter_tlaps"],
                 steps=[{"cmd": "c07", "judge": "J_C07"}]),
@@ -221,11 +221,11 @@ PROPS = {
                        # the stream families of C17 (ADV / INFRAME / HIST / NOISE / corpus / mutations), judged as whole behaviours: at every
                        # boundary a valid frame is delivered and the noise before it reported (Contract mode "c08")
                        {"cmd": "c17", "judge": "J_ContractC08", "cfg": "JudgeN.cfg"}]),
-    "C14": dict(T("for every boundary event (ok, oom, invalid message, invalid escape, finalize, reset) in HIST / INFRAME / history-prefixed ADV streams, corpus and mutations, and capacities "
+    "C14": dict(T("for every boundary event (ok, oom, invalid message, invalid escape, finalize, reset) in HIST / HISTFRAME (17 idle histories incl. reset / finalize right after a start sequence, noise, frame) / INFRAME / PADX / history-prefixed ADV streams, corpus and mutations, and capacities "
                   "{growable,0,1,2,5}: events of the continuing decoder vs. a new decoder on the same continuation"),
                 mc={"quick": ["boundary_hist"], "thorough": ["boundary_hist"]},
                 steps=[{"cmd": "c14", "judge": "J_C14"}]),
-    "C15": dict(T("every stream of ADV / INFRAME / NOISE, corpus dumps and mutations through 11-14 front-end configurations (push, decode, decode_streaming, SmlReader x slice/iterator/io::Read x "
+    "C15": dict(T("every stream of ADV / INFRAME / PADX / NEARSTART / NOISE, corpus dumps, mutations and three transmissions with 2^16-1 .. 2^16+1 payload bytes through 11-14 front-end configurations (push, decode, decode_streaming, SmlReader x slice/iterator/io::Read x "
                   "Vec / ArrayBuf<N>=|s| / default); records are the grouped observations"),
                 mc={"quick": ["reader_faults_1"], "thorough": ["reader_faults_1", "reader_faults_2", "reader_faults_3"]},
                 steps=[{"cmd": "c15", "judge": "J_C15"}]),
@@ -251,7 +251,7 @@ PROPS = {
                 mc={"quick": ["grammar"], "thorough": ["grammar"]},
                 steps=[{"cmd": "c09", "judge": "J_C09", "cfg": "JudgeP.cfg"}]),
     "C10": dict({"rule": "0-3 SML files (generated with every encoding choice, or real meter payloads) framed by the harness and separated by random noise (incl. noise ending in 0x1b runs or a partial start "
-                         "sequence), read through SmlReader over slice / iterator / io::Read with the default 8 KiB, ArrayBuf<N> and Vec buffers, with per-call choices of read vs next and of "
+                         "sequence; optionally a near-frame - pad 4, pad without zeros, misaligned, wrong checksum, invalid escape - and more noise behind it), read through SmlReader over slice / iterator / io::Read with the default 8 KiB, ArrayBuf<N> and Vec buffers, with per-call choices of read vs next and of "
                          "DecodedBytes / File / Parser; each record also carries the hand composition decode_streaming + parse / Parser::new",
                  "assumptions": PARSER_ASSUME + TRANSPORT_ASSUME[:2]},
                 mc={"quick": ["reader_faults_1", "link_1"], "thorough": ["reader_faults_1", "reader_faults_2", "reader_faults_3", "link_1", "link_2"]},
@@ -275,7 +275,7 @@ PROPS = {
                 mc={"quick": ["arraybuf"], "thorough": ["arraybuf"]},
                 proofs=["arraybuf_ref"],
                 steps=[{"cmd": "c18", "judge": "J_C18", "tlcgen": "arraybuf_ops"}]),
-    "C17": dict(T("every stream of ADV / INFRAME / PADX / NEARSTART / HIST / NOISE, corpus, mutations with push+finalize (growable buffer and fixed capacities 1/4/6/9) and SmlReader (iterator, io::Read); noise runs of 255..2^17+1 bytes; "
+    "C17": dict(T("every stream of ADV / INFRAME / PADX / NEARSTART / HIST / HISTFRAME / NOISE, corpus, mutations with push+finalize (growable buffer and fixed capacities 1/4/6/9) and SmlReader (iterator, io::Read, io::Read with an injected I/O error or would-block inside the stream); noise runs of 255..2^17+1 bytes; "
                   "both the overflow-checked and the wrapping (release) build; record = (length, event list)"),
                 mc={"quick": ["tiles_adv", "tiles_hist", "contract_hist"], "thorough": ["tiles_adv", "tiles_hist", "contract_hist", "sim_contract", "resync_noise"]},
                 proofs=["matcher"],
